@@ -99,6 +99,9 @@ func (p *Prov) of(v ssa.Value, depth int, seen map[ssa.Value]bool) string {
 				idx = i
 			}
 		}
+		if fn.Signature.Recv() != nil && idx == 0 {
+			return "recv" // the receiver is never resolved through callers: "recv" always means the method's own object
+		}
 		if depth < p.maxDepth && idx >= 0 {
 			cs := p.callSites(fn)
 			if len(cs) > 0 && len(cs) <= 6 {
